@@ -148,3 +148,29 @@ prop("C18", quick={"runs": 12000}, thorough={"runs": 100000000, "budget_s": 600}
      "compared with the harness's own event log. Non-trivial: at least one operation.",
      rules=["C18.build / failed / refreshed (frontend)", "C18.write / delete / reads (hit+miss+expired = non-skipped reads + entries touched by ExpireAll)"],
      probes=["refresh_counted", "failed_build_counted", "expireAll_counted", "deleteAll_counted"])
+TR_RULE = "Root-driven scenarios drawn from the seeded PRNG; the simulator owns the byte stream / round-tripper / deleters and the iteration order of maps and sync.Map (so every Walk order the source can produce is sampled). "
+prop("C13", quick={"runs": 6000}, thorough={"runs": 100000000, "budget_s": 600},
+     rule=TR_RULE + "Source caches with 0-300 entries (keys of differing lengths incl. empty and binary, values nil / zero / populated structs / maps / pointers, "
+     "expiry unset / set / already expired) are dumped and restored along chains of 1-4 hops over ShardedMap<->SyncMap and ShardedMapOf[GV]; a third of the "
+     "runs truncate or fail the stream at a byte offset or deliver it in 1-byte reads. Non-trivial: at least one entry; distinct = distinct scenarios x map order.",
+     rules=["C13.R1 entry sets equal after Dump->Restore", "C13.R2 Read agrees", "C13.R3 counts", "C13.R4 relay through further hops", "C13.R5 stream faults: subset of intact entries"],
+     probes=["relayed_through_second_hop"])
+prop("C14", quick={"runs": 6000}, thorough={"runs": 100000000, "budget_s": 600},
+     rule=TR_RULE + "Exporter and importer HTTPTransfer instances with 0-4 named caches each (partly overlapping names); Import runs against Export() through an "
+     "in-process http.RoundTripper; a third of the runs inject round-trip errors, 5xx, truncated / failing bodies or a rewritten typesHash. Every 50th run is the "
+     "auxiliary (non-simulation) hash clause: 4 fresh OS processes register permutations / multiplicities of a type pool and print GobTypesHash().",
+     rules=["C14.R1 imported caches equal the exporter's of the same name; every cache is requested", "C14.R2 exporter unchanged", "C14.R3 nothing imported on hash mismatch / unknown name / non-200",
+            "C14.R4 body faults: subset of intact entries, Import returns nil", "C14.H1/H2 (auxiliary) hash independent of order and multiplicity, changes when a type is added"],
+     probes=["cache_imported", "importer_cache_unknown_to_exporter", "types_hash_fresh_process_evaluations"])
+prop("C15", quick={"runs": 9000}, thorough={"runs": 100000000, "budget_s": 600}, level="fault_enumeration",
+     rule=TR_RULE + "InvalidationIndex over 1-3 cache names with 1-3 deleters each (real backends behind a fault wrapper), generated label/key incidence structures "
+     "(several labels per key, shared keys, repeated labelling, unused labels, labelled-but-absent keys). A third of the runs are fault-free sequences, a third "
+     "inject a deleter failure at a chosen Delete ordinal followed by a fault-free retry, a third run AddLabels / AddCache / InvalidateByLabels / writes concurrently.",
+     rules=["C15.R1 labelled keys absent after nil", "C15.R2 unlabelled keys untouched", "C15.R3 count = entries really removed", "C15.R4 failure returned, no panic", "C15.R5 retry removes every labelled key"],
+     probes=["invalidate_ok", "invalidate_with_deleter_failure", "retry_after_failure", "concurrent_invalidate"])
+prop("C17", quick={"runs": 12000}, thorough={"runs": 100000000, "budget_s": 600},
+     rule="1-8 client tasks call Invalidate 1-4 times each with sleeps around SkipInterval (-1ns, exactly, +1ns); 0-5 callbacks yield / sleep simulated time while the "
+     "Invalidator's mutex is held (cooperative lock table). Non-trivial: at least two calls; distinct = distinct (scenario, schedule signature).",
+     rules=["C17.R1 accepted calls never overlap", "C17.R2 consecutive accepts >= SkipInterval apart", "C17.R3 every callback exactly once in order, synchronously",
+            "C17.R4 rejected: no callback, ErrAlreadyInvalidated", "C17.R5 no callbacks: ErrNothingToInvalidate"],
+     probes=["rejected_call", "two_accepted_calls", "overlapping_invalidate_calls"])
